@@ -84,7 +84,8 @@ func c11Run(e *Env) {
 	// request with an ID the peer used before would be a genuine duplicate and is rightly swallowed)
 	lastOwn := func() int {
 		for i := len(ownMIDs) - 1; i >= 0; i-- {
-			if m := ownMIDs[i]; !usedByPeer[m] && (m < 100 || m > 140) {
+			// (100..140: the peer's requests, 40000..40400: the message IDs of its answers)
+			if m := ownMIDs[i]; !usedByPeer[m] && (m < 100 || m > 140) && (m < 40000 || m > 40400) {
 				return int(m)
 			}
 		}
